@@ -36,7 +36,11 @@ func (c split) Send(msg []byte) error {
 	if bytes.IndexByte(msg, c.split) >= 0 {
 		return errors.New("message contains split byte")
 	}
-	out := append(msg, c.split)
+	// Do not append to msg in place: if it has spare capacity the terminator
+	// would land in memory that belongs to the caller.
+	out := make([]byte, len(msg)+1)
+	copy(out, msg)
+	out[len(msg)] = c.split
 	_, err := c.wc.Write(out)
 	return err
 }
